@@ -38,6 +38,7 @@ class C19(Check):
         "intervals within [1,M] x strand, placed in one scaffold or split over two at every point, with and without gaps: reported pairs == "
         "{unordered same-name intersecting pairs} each once, as (fragment, scaffold) references. CLI: asm-format --qc-overlaps on a slice, "
         "stderr lists the same pairs. non-trivial = pair that intersects or abuts (predicates) / assembly with at least one overlapping pair (scan)"
+        " Every assembly is scanned again after add_row / add_scaffold / row removal, also as IndexedAssembly."
     )
     assumptions = ["coordinates bounded by N / M; names from {a,b}"]
 
